@@ -245,12 +245,10 @@ syn_opaque_node!{
     ExVisRestricted, syn::VisRestricted, vis_restricted_toks;
     ExTypeParamBound, syn::TypeParamBound, bound_toks;
     ExWherePredicate, syn::WherePredicate, where_predicate_toks;
-    ExPat, syn::Pat, pat_toks;
     ExAbi, syn::Abi, abi_toks;
     ExVariadic, syn::Variadic, variadic_toks;
     ExReturnType, syn::ReturnType, return_type_toks;
     ExExpr, syn::Expr, expr_toks;
-    ExPath, syn::Path, path_toks;
 }
 
 // ------------------------------------------------------------------ Punctuated
@@ -270,6 +268,9 @@ pub uninterp spec fn pseq<T, P>(p: &syn::punctuated::Punctuated<T, P>) -> Seq<T>
 /// Whether the list ends in a trailing punctuation token.
 pub uninterp spec fn ptrailing<T, P>(p: &syn::punctuated::Punctuated<T, P>) -> bool;
 
+/// A-arith: an in-memory list of non-zero-sized syntax nodes has at most isize::MAX elements
+pub axiom fn axiom_punctuated_len<T, P>(p: &syn::punctuated::Punctuated<T, P>)
+    ensures #[trigger] pseq(p).len() <= usize::MAX / 2;
 pub assume_specification<T, P>[ syn::punctuated::Punctuated::<T, P>::first ](p: &syn::punctuated::Punctuated<T, P>) -> (r: Option<&T>)
     ensures pseq(p).len() == 0 ==> r is None,
             pseq(p).len() > 0 ==> r == Some(&pseq(p)[0]);
@@ -296,6 +297,107 @@ pub assume_specification<'a, T, P>[ syn::punctuated::Punctuated::<T, P>::iter ](
 ;
 pub assume_specification<'a, T>[ <syn::punctuated::Iter<'a, T> as core::iter::Iterator>::next ](it: &mut syn::punctuated::Iter<'a, T>) -> (r: Option<<syn::punctuated::Iter<'a, T> as core::iter::Iterator>::Item>);
 
+} // verus!
+
+// ------------------------------------------------------------------ transparent syn syntax nodes
+// Declared without external_body, so the real functions can match on / project out of them.
+ext_opaque!{
+    ExTypeArray => syn::TypeArray, ExTypeBareFn => syn::TypeBareFn, ExTypeGroup => syn::TypeGroup,
+    ExTypeInfer => syn::TypeInfer, ExTypeMacro => syn::TypeMacro, ExTypeNever => syn::TypeNever,
+    ExTypePtr => syn::TypePtr, ExTypeSlice => syn::TypeSlice, ExTypeTraitObject => syn::TypeTraitObject,
+    ExTypeTuple => syn::TypeTuple, ExQSelf => syn::QSelf, ExPathArguments => syn::PathArguments,
+    ExBoundLifetimes => syn::BoundLifetimes, ExPredicateLifetime => syn::PredicateLifetime,
+    ExPatConst => syn::PatConst, ExPatLit => syn::PatLit, ExPatMacro => syn::PatMacro, ExPatOr => syn::PatOr,
+    ExPatParen => syn::PatParen, ExPatPath => syn::PatPath, ExPatRange => syn::PatRange, ExPatReference => syn::PatReference,
+    ExPatRest => syn::PatRest, ExPatSlice => syn::PatSlice, ExPatStruct => syn::PatStruct, ExPatTuple => syn::PatTuple,
+    ExPatTupleStruct => syn::PatTupleStruct, ExPatTypeP => syn::PatType, ExPatWild => syn::PatWild,
+    ExAt => syn::token::At,
+}
+verus! {
+#[verifier::external_type_specification] pub struct ExSignature(syn::Signature);
+#[verifier::external_type_specification] pub struct ExFnArg(syn::FnArg);
+#[verifier::external_type_specification] pub struct ExReceiver(syn::Receiver);
+#[verifier::external_type_specification] pub struct ExGenerics(syn::Generics);
+#[verifier::external_type_specification] pub struct ExWhereClause(syn::WhereClause);
+#[verifier::external_type_specification] pub struct ExGenericParam(syn::GenericParam);
+#[verifier::external_type_specification] pub struct ExTypeParam(syn::TypeParam);
+#[verifier::external_type_specification] pub struct ExLifetimeParam(syn::LifetimeParam);
+#[verifier::external_type_specification] pub struct ExConstParam(syn::ConstParam);
+#[verifier::external_type_specification] pub struct ExVisibility(syn::Visibility);
+#[verifier::external_type_specification] pub struct ExType(syn::Type);
+#[verifier::external_type_specification] pub struct ExTypeReference(syn::TypeReference);
+#[verifier::external_type_specification] pub struct ExTypeParen(syn::TypeParen);
+#[verifier::external_type_specification] pub struct ExTypeImplTrait(syn::TypeImplTrait);
+#[verifier::external_type_specification] pub struct ExTypePath(syn::TypePath);
+#[verifier::external_type_specification] pub struct ExPath(syn::Path);
+#[verifier::external_type_specification] pub struct ExPathSegment(syn::PathSegment);
+#[verifier::external_type_specification] pub struct ExPredicateType(syn::PredicateType);
+#[verifier::external_type_specification] pub struct ExPat(syn::Pat);
+#[verifier::external_type_specification] pub struct ExPatIdent(syn::PatIdent);
+}
+syn_node_toks!{
+    syn::Signature, signature_toks;
+    syn::FnArg, fn_arg_toks;
+    syn::Receiver, receiver_toks;
+    syn::PatType, pat_type_toks;
+    syn::Generics, generics_toks;
+    syn::GenericParam, generic_param_toks;
+    syn::TypeParam, type_param_toks;
+    syn::LifetimeParam, lifetime_param_toks;
+    syn::ConstParam, const_param_toks;
+    syn::Visibility, visibility_toks;
+    syn::Type, type_toks;
+    syn::Path, path_toks;
+    syn::Pat, pat_toks;
+}
+verus! {
+/// an inherited (absent) visibility prints nothing; `pub` prints the keyword
+pub axiom fn axiom_visibility_toks(v: &syn::Visibility)
+    ensures
+        (*v is Inherited) ==> #[trigger] visibility_toks(v) == Seq::<Tok>::empty(),
+        (*v is Public) ==> visibility_toks(v) == id("pub"@);
+
+// Pair / Pairs
+#[verifier::external_type_specification]
+#[verifier::reject_recursive_types(T)]
+#[verifier::reject_recursive_types(P)]
+pub struct ExPair<T, P>(syn::punctuated::Pair<T, P>);
+impl<T: ToTokens, P: ToTokens> ToTokensSpecImpl for syn::punctuated::Pair<T, P> {
+    open spec fn toks(&self) -> Seq<Tok> {
+        match self {
+            syn::punctuated::Pair::Punctuated(t, p) => t.toks() + p.toks(),
+            syn::punctuated::Pair::End(t) => t.toks(),
+        }
+    }
+}
+pub open spec fn pair_value<T, P>(pair: syn::punctuated::Pair<T, P>) -> T {
+    match pair {
+        syn::punctuated::Pair::Punctuated(t, p) => t,
+        syn::punctuated::Pair::End(t) => t,
+    }
+}
+pub assume_specification<T, P>[ syn::punctuated::Pair::<T, P>::value ](pair: &syn::punctuated::Pair<T, P>) -> (r: &T)
+    ensures *r == pair_value(*pair);
+
+#[verifier::external_type_specification]
+#[verifier::external_body]
+#[verifier::reject_recursive_types(T)]
+#[verifier::reject_recursive_types(P)]
+pub struct ExPairs<'a, T: 'a, P: 'a>(syn::punctuated::Pairs<'a, T, P>);
+
+pub assume_specification<'a, T, P>[ syn::punctuated::Punctuated::<T, P>::pairs ](p: &'a syn::punctuated::Punctuated<T, P>) -> (r: syn::punctuated::Pairs<'a, T, P>)
+    ensures
+        r.obeys_prophetic_iter_laws(),
+        r.will_return_none(),
+        r.remaining().len() == pseq(p).len(),
+        forall|i: int| #![auto] 0 <= i < pseq(p).len() ==> *pair_value(r.remaining()[i]) == pseq(p)[i]
+            && ((r.remaining()[i] is Punctuated) <==> (i + 1 < pseq(p).len() || ptrailing(p))),
+        r.decrease() is Some,
+;
+pub assume_specification<'a, T, P>[ <syn::punctuated::Pairs<'a, T, P> as core::iter::Iterator>::next ](it: &mut syn::punctuated::Pairs<'a, T, P>) -> (r: Option<<syn::punctuated::Pairs<'a, T, P> as core::iter::Iterator>::Item>);
+}
+
+verus! {
 // ------------------------------------------------------------------ errors, spans
 pub uninterp spec fn err_msg(e: &syn::Error) -> Seq<char>;
 pub uninterp spec fn display_str<T>(x: T) -> Seq<char>;
@@ -309,5 +411,37 @@ pub assume_specification<T: core::fmt::Display>[ syn::Error::new ](span: Span, m
 #[verifier::external_body]
 #[verifier::allow(undeclared_external_trait)]
 pub fn span_of<T: ?Sized + syn::spanned::Spanned>(x: &T) -> Span { x.span() }
+
+
+// ------------------------------------------------------------------ shared definitions (not assumptions)
+pub open spec fn core_marker(name: Seq<char>) -> Seq<Tok> {
+    pu("::"@) + id("core"@) + pu("::"@) + id("marker"@) + pu("::"@) + id(name)
+}
+
+/// `join(head, sep, xs)`: nothing for an empty list, else head x1 sep x2 sep ... xn
+pub open spec fn joined(head: Seq<Tok>, sep: Seq<Tok>, items: Seq<Seq<Tok>>) -> Seq<Tok>
+    decreases items.len()
+{
+    if items.len() == 0 { Seq::<Tok>::empty() }
+    else if items.len() == 1 { head + items[0] }
+    else { joined(head, sep, items.drop_last()) + sep + items.last() }
+}
+
+pub proof fn lemma_joined_push(head: Seq<Tok>, sep: Seq<Tok>, items: Seq<Seq<Tok>>, x: Seq<Tok>)
+    ensures joined(head, sep, items.push(x)) == joined(head, sep, items) + (if items.len() == 0 { head } else { sep }) + x
+{
+    assert(items.push(x).drop_last() =~= items);
+    assert(items.push(x).last() == x);
+    if items.len() == 0 {
+        assert(joined(head, sep, items) =~= Seq::<Tok>::empty());
+        assert(items.push(x)[0] == x);
+    }
+}
+
+/// `open x1 sep x2 ... close`, nothing at all for an empty list (the Punctuator discipline)
+pub open spec fn delimited(open: Seq<Tok>, sep: Seq<Tok>, close: Seq<Tok>, items: Seq<Seq<Tok>>) -> Seq<Tok> {
+    if items.len() == 0 { Seq::<Tok>::empty() } else { joined(open, sep, items) + close }
+}
+
 
 } // verus!
